@@ -47,8 +47,9 @@ func verifXRefProject(xref map[uint32]*xRefEntry) map[uint32]VerifXRefEntry {
 
 // VerifReadXRefTable runs readXRefTable on data (which starts at the keyword
 // "xref" and includes the trailer dictionary), with the object numbers in
-// known already present in the table.
-func VerifReadXRefTable(data []byte, known []uint32) (res map[uint32]VerifXRefEntry, trailer Dict, err error) {
+// known already present in the table.  allowRepair is the flag readXRef passes
+// (true when the section has no /Prev).
+func VerifReadXRefTable(data []byte, known []uint32, allowRepair bool) (res map[uint32]VerifXRefEntry, trailer Dict, err error) {
 	defer func() {
 		if r := recover(); r != nil {
 			err = fmt.Errorf("panic: %v", r)
@@ -56,7 +57,7 @@ func VerifReadXRefTable(data []byte, known []uint32) (res map[uint32]VerifXRefEn
 	}()
 	xref := verifXRefSeed(known)
 	s := newScanner(bytes.NewReader(data), nil, nil)
-	trailer, err = readXRefTable(xref, s)
+	trailer, err = readXRefTable(xref, s, allowRepair)
 	return verifXRefProject(xref), trailer, err
 }
 
